@@ -1400,10 +1400,17 @@ static void pid_controller(int order, unsigned opr, int kind_e, int kind_ec, vf_
     ctx->pid.summin = -1e9;
     ctx->pid.outmax = 1e9;
     ctx->pid.outmin = -1e9;
-    a_pid_fuzzy_set_opr(ctx, opr);
-    a_pid_fuzzy_set_rule(ctx, (unsigned)order, me.tab, mec.tab, mk[0], mk[1], mk[2]);
-    a_pid_fuzzy_set_bfuzz(ctx, buf, (a_size)N);
-    a_pid_fuzzy_set_kpid(ctx, base[0], base[1], base[2]);
+    /* the setters in any order (the header prescribes none): the scratch block before or after the rule base, the operator and the base gains anywhere
+       (seeded change C12-L: set_bfuzz clamping its capacity to the order of the rule base that happens to be installed - 0 on a fresh controller) */
+    {
+        unsigned const ord = (unsigned)vf_below(r, 6);
+        if (ord & 1) { a_pid_fuzzy_set_bfuzz(ctx, buf, (a_size)N); VF_COUNT("pid_fuzzy-scratch-block-set-before-the-rule-base"); }
+        if (ord & 2) { a_pid_fuzzy_set_kpid(ctx, base[0], base[1], base[2]); }
+        a_pid_fuzzy_set_opr(ctx, opr);
+        a_pid_fuzzy_set_rule(ctx, (unsigned)order, me.tab, mec.tab, mk[0], mk[1], mk[2]);
+        if (!(ord & 1)) { a_pid_fuzzy_set_bfuzz(ctx, buf, (a_size)N); }
+        if (!(ord & 2)) { a_pid_fuzzy_set_kpid(ctx, base[0], base[1], base[2]); }
+    }
     a_pid_fuzzy_init(ctx);
     /* layout of the scratch block: index part >= 2N unsigned, value part >= (2+N)N reals, both inside the block */
     VF_COUNT("pid-bfuzz-layout");
